@@ -237,7 +237,27 @@ func mkCmp(op, a, b string) string {
 	return "(" + op + " " + a + " " + b + ")"
 }
 
-func mkSelect(a, i string) string { return "(select " + a + " " + i + ")" }
+func mkSelect(a, i string) string {
+	// read-over-write at a syntactically identical index; skip writes at
+	// literal indices known to differ
+	for strings.HasPrefix(a, "(store ") {
+		p := splitTop(a)
+		if len(p) != 4 {
+			break
+		}
+		if p[2] == i {
+			return p[3]
+		}
+		x, okx := isIntLit(p[2])
+		y, oky := isIntLit(i)
+		if okx && oky && x.Cmp(y) != 0 {
+			a = p[1]
+			continue
+		}
+		break
+	}
+	return "(select " + a + " " + i + ")"
+}
 func mkStore(a, i, v string) string {
 	return "(store " + a + " " + i + " " + v + ")"
 }
@@ -263,12 +283,47 @@ func wrapInt(term string, bits int, signed bool) string {
 		}
 		return intLit(r)
 	}
+	// exact machine semantics, written so that the common in-range case is the
+	// term itself: a bare "mod" definition gets inlined by the solvers'
+	// preprocessing and then defeats E-matching on index terms built from it
+	// The VC uses a macro (wrap_s64 …); the prelude defines it.  Two equivalent
+	// definitions exist (variant A: ite-form, variant B: plain mod) and the
+	// portfolio tries both, because each defeats the solvers' E-matching on a
+	// different class of goals.
+	if bits == 8 || bits == 16 || bits == 32 || bits == 64 {
+		if signed {
+			return fmt.Sprintf("(wrap_s%d %s)", bits, term)
+		}
+		return fmt.Sprintf("(wrap_u%d %s)", bits, term)
+	}
 	if !signed {
-		return "(mod " + term + " " + intLit(m) + ")"
+		return "(ite " + inRange(term, bits, false) + " " + term + " (mod " + term + " " + intLit(m) + "))"
 	}
 	h := intLit(pow2(bits - 1))
-	return "(- (mod (+ " + term + " " + h + ") " + intLit(m) + ") " + h + ")"
+	return "(ite " + inRange(term, bits, true) + " " + term + " (- (mod (+ " + term + " " + h + ") " + intLit(m) + ") " + h + "))"
 }
+
+// wrapDefs returns the define-funs of the wrap macros; variant "A" = ite-form
+// (identity when in range), "B" = bare modular form.
+func wrapDefs(variant string) string {
+	var sb strings.Builder
+	for _, bits := range []int{8, 16, 32, 64} {
+		m := intLit(pow2(bits))
+		h := intLit(pow2(bits - 1))
+		uMod := "(mod x " + m + ")"
+		sMod := "(- (mod (+ x " + h + ") " + m + ") " + h + ")"
+		u, s := uMod, sMod
+		if variant == "A" {
+			u = "(ite " + inRange("x", bits, false) + " x " + uMod + ")"
+			s = "(ite " + inRange("x", bits, true) + " x " + sMod + ")"
+		}
+		fmt.Fprintf(&sb, "(define-fun wrap_u%d ((x Int)) Int %s)\n(define-fun wrap_s%d ((x Int)) Int %s)\n", bits, u, bits, s)
+	}
+	return sb.String()
+}
+
+const wrapMarkBegin = "; <wrap-defs>\n"
+const wrapMarkEnd = "; </wrap-defs>\n"
 
 func inRange(term string, bits int, signed bool) string {
 	if signed {
